@@ -595,6 +595,8 @@ def iter_values(interp, st, v, node=None):
         if v.ndim == 0:
             raise Outside("iteration over 0-d array", node)
         return v.rows()
+    if type(v).__name__ == "NdIndex":
+        return v
     if isinstance(v, (GList, SymList, I.SymRange, Grid)):
         if isinstance(v, Grid) and isinstance(v.dims[0], int):
             return [grid_getitem(interp, st, v, k, node) for k in range(v.dims[0])]
@@ -658,6 +660,8 @@ def sym_len(interp, st, v, node=None):
         return v.dom.card
     if isinstance(v, I.SymRange):
         return _M().s_max(_M().s_sub(v.hi, v.lo), 0)
+    if type(v).__name__ == "NdIndex":
+        return _M().ndindex_len(v)
     if isinstance(v, SymIter):
         if v.kind == "enumerate":
             return sym_len(interp, st, v.parts[0], node)
@@ -689,6 +693,8 @@ def sym_item(interp, st, seq, k, node=None):
         return seq.get(k)
     if isinstance(seq, I.SymRange):
         return _M().s_add(seq.lo, k)
+    if type(seq).__name__ == "NdIndex":
+        return _M().ndindex_item(seq, k)
     if isinstance(seq, Grid):
         return grid_getitem(interp, st, seq, k, node)
     if isinstance(seq, GList):
